@@ -14,4 +14,5 @@ let table : (string * (z list -> z list)) list = [
   ("history", run_history);
   ("session", run_session);
   ("client", run_client);
+  ("concurrent", run_concurrent);
 ]
